@@ -368,3 +368,85 @@ def prefix_table_reaches_datatypes(ctx, clause):
                "the declared prefixes reach the datatype expansion" if ok else
                "the prefix table of the Turtle reader never reaches decide_literal_type, which only knows the hard-coded prefixes "
                "xsd:, rdf:, dt:, geo: - `\"x\"^^e:dt` with a declared prefix e: raises RuntimeError('Unrecognized literal type')")]
+
+
+# ------------------------------------------------------------------------- quoted-token contract
+def _starts_with_quote(e):
+    """A concatenation whose leftmost operand is a constant beginning with a double quote."""
+    while isinstance(e, ast.BinOp) and isinstance(e.op, ast.Add):
+        e = e.left
+    return isinstance(e, ast.Constant) and isinstance(e.value, str) and e.value.startswith('"')
+
+
+def _guarded_by_quote_test(f, node, name):
+    """node sits in the arm of an if/elif whose test is `<name>.startswith('"')`."""
+    from ..core import parent_map
+    pm = parent_map(f.node)
+    cur = node
+    while cur in pm:
+        par = pm[cur]
+        if isinstance(par, ast.If) and any(cur is s for s in par.body):
+            t = par.test
+            if isinstance(t, ast.Call) and isinstance(t.func, ast.Attribute) and t.func.attr == "startswith" and isinstance(t.func.value, ast.Name) \
+                    and t.func.value.id == name and t.args and isinstance(t.args[0], ast.Constant) and t.args[0].value == '"':
+                return True
+        cur = par
+    return False
+
+
+BARE_TOKEN_CALLERS = {
+    "parse_unquoted_literal": "the fallback for bare tokens (numbers, booleans) of the streaming readers: a valid bare token contains "
+                              "neither '@' nor a quote, so the decision is xsd:string or nothing the content can steer",
+}
+
+
+def quoted_token_contract(ctx, clause):
+    """decide_literal_type reads its argument as a complete literal token `"lexical form"[@lang|^^datatype]`: it locates the
+    language tag and the datatype relative to the LAST double quote.  Every caller must therefore hand it a quoted token:
+    a concatenation that starts with '"', or a value tested with startswith('"'); a parameter passed through moves the
+    obligation to the callers.  A raw lexical form (no quotes) makes the content decide the datatype ("a@b.org" -> langString)."""
+    from ..resolve import bind_args
+    p, r = ctx.p, ctx.r
+    root = p.func(URI + "decide_literal_type")
+    work, seen, obs, n = [(root, root.params[0])], set(), [], 0
+    while work:
+        f, prm = work.pop()
+        if (f.qual, prm) in seen:
+            continue
+        seen.add((f.qual, prm))
+        for cs in r.callers_of.get(f.qual, []):
+            if cs.kind == "byname":
+                continue
+            g = cs.func
+            arg = bind_args(cs.node, f)["bound"].get(prm)
+            if arg is None:
+                continue
+            n += 1
+            key = "R-CONTRACT|quoted-token|%s->%s" % (g.short, f.short)
+            ok, why = False, ""
+            if g.short in BARE_TOKEN_CALLERS:
+                ok, why = True, BARE_TOKEN_CALLERS[g.short]
+            elif _starts_with_quote(arg):
+                ok, why = True, "a concatenation that starts with a double quote"
+            elif isinstance(arg, ast.Name):
+                defs = [x.value for x in walk_own(g.node) if isinstance(x, ast.Assign) and any(isinstance(t, ast.Name) and t.id == arg.id for t in x.targets)]
+                if arg.id in g.params and not defs:
+                    if _guarded_by_quote_test(g, cs.node, arg.id):
+                        ok, why = True, "guarded by %s.startswith('\"')" % arg.id
+                    else:
+                        ok, why = True, "its own parameter `%s`: the obligation passes to the callers of %s" % (arg.id, g.short)
+                        work.append((g, arg.id))
+                elif defs and all(_starts_with_quote(d) for d in defs) and arg.id not in g.params:
+                    ok, why = True, "every definition of `%s` starts with a double quote" % arg.id
+                elif _guarded_by_quote_test(g, cs.node, arg.id):
+                    ok, why = True, "guarded by %s.startswith('\"')" % arg.id
+                else:
+                    bad = [d for d in defs if not _starts_with_quote(d)]
+                    why = "`%s` can hold %s, which is not a quoted token" % (arg.id, ("`%s`" % norm(bad[0])[:50]) if bad else "a value of unknown form")
+            else:
+                why = "`%s` is not a quoted token" % norm(arg)[:50]
+            obs.append(Ob(clause, "R-CONTRACT", key, g.loc(cs.node), ok,
+                          "%s hands %s a quoted token (%s)" % (g.short, f.short, why) if ok else
+                          "%s calls %s(%s): %s - the datatype is then decided from the content (a plain string with an '@', or with "
+                          "'\"^^' inside, gets the wrong datatype)" % (g.short, f.short, norm(arg)[:30], why)))
+    return obs, n
